@@ -32,7 +32,7 @@ ANCHOR_FILES = ['config.py']
 RULE = ('[table on the real code: called registered methods of same-named classes in different modules; operative text replays] '
         'C01 generator with allow/deny lists, signature defaults that are sometimes not literally representable '
         '(opaque objects) and bindings to opaque objects; 2-6 calls under random scopes with random caller-supplied / '
-        'omitted splits, operative_config_str() parsed after every call; at the end the text is replayed on the real '
+        'omitted splits, in a third callees that alter nested mutable bound values in place, operative_config_str() parsed after every call; at the end the text is replayed on the real '
         'code (clear_config, parse_config(text), same calls) and received arguments and text are compared. '
         'non-trivial = at least 2 successful calls of one configurable with different caller-supplied parameter sets, '
         'or a call whose operative section mixes defaults and bindings; distinct = canonical ops')
@@ -44,6 +44,31 @@ ASSUMPTIONS = ['replay is claimed for calls that did not fail on a missing REQUI
 EXPLANATION = ('Lean theorems about the operative parameters computed by phaseA (exact characterisation per parameter, '
                'exclusions) and the record update in State.call + differential comparison of the parsed '
                'operative_config_str() after every call + real replay of the text on the implementation.')
+
+
+def gen_nested_mutable(rng, depth=0):
+  """A reference-free value with a mutable container inside another container (a dict holding a list, a list holding
+  a dict, a tuple holding either ...)."""
+  from encode import canon
+
+  def inner():
+    if depth < 2 and rng.random() < 0.3:
+      return gen_nested_mutable(rng, depth + 1)
+    r = rng.random()
+    if r < 0.5:
+      return {'l': [G.gen_value(rng, 2) for _ in range(rng.randint(0, 3))]}
+    if r < 0.8:
+      return {'d': [[{'s': 'k'}, G.gen_value(rng, 2)]] if rng.random() < 0.7 else []}
+    return {'t': [{'l': [G.gen_value(rng, 2)]}]}
+  r = rng.random()
+  if r < 0.45:
+    keys = rng.sample([1, 2, {'s': 'layers'}, {'s': 'name'}, None, {'t': [1, 2]}], rng.randint(1, 3))
+    keys = sorted(keys, key=canon)
+    at = rng.randrange(len(keys))
+    return {'d': [[k, inner() if i == at or rng.random() < 0.4 else G.gen_value(rng, 2)] for i, k in enumerate(keys)]}
+  items = [G.gen_value(rng, 2) for _ in range(rng.randint(0, 2))]
+  items.insert(rng.randint(0, len(items)), inner())
+  return {'l': items} if r < 0.8 else {'t': items}
 
 
 def gen_case(rng):
@@ -74,6 +99,14 @@ def gen_case(rng):
         b['_form'] = rng.choice(['tuple', 'list', 'str'])
         b['block'] = False
       body.append(b)
+  # callees that alter, in place and at any depth, what they were handed (append to a list inside a dict, add a key to
+  # a dict inside a tuple ...): the record still shows what Gin supplied, and the replayed calls receive the same
+  mutating = rng.random() < 0.3
+  if mutating:
+    for _ in range(rng.randint(1, 3)):
+      b = G.gen_bind(rng, rng.choice(regs), rng.choice(scopes), value=gen_nested_mutable(rng))
+      if b:
+        body.append(b)
   fixed_store = rng.random() < 0.7   # all bindings precede all calls: the replay claim applies
   for _ in range(rng.randint(2, 6)):
     reg = rng.choice(regs)
@@ -96,6 +129,10 @@ def gen_case(rng):
         call['kwargs'] = [kv for kv in call['kwargs'] if kv[0] != p]
         call['args'] = call['args'][:1] if '_selfname' in call else []
         body += [call, {'op': 'operative'}, {'op': 'opstr'}]
+  if mutating:
+    for op in body:
+      if op['op'] == 'call' and rng.random() < 0.85:
+        op['_mutate'] = True
   ops += body
   ops += [{'op': 'operative'}, {'op': 'opstr'}]
   return {'dom': 'gin', 'ops': ops, '_fixed_store': fixed_store}
